@@ -89,6 +89,16 @@ fn scan_file(root: &Path, rel: &str, out: &mut Vec<String>) {
                 }
             }
         }
+        if !in_test_mod && (t.starts_with("static ") || t.starts_with("pub static ") || t.starts_with("pub(crate) static ") || t.contains("thread_local!")) {
+            let mutable = ["Atomic", "Mutex", "RwLock", " Cell<", "RefCell<", "static mut", "thread_local!"].iter().any(|m| t.contains(m));
+            if mutable && !t.contains("verif_rt") {
+                out.push(format!(
+                    "{rel}:{}: `{}`: process-wide mutable state is shared by all simulated invocations of a worker process (a real process starts fresh)",
+                    ln + 1,
+                    t
+                ));
+            }
+        }
         if !in_test_mod && !t.starts_with("use ") && !t.starts_with("pub use ") {
             for p in patterns {
                 if t.contains(p) {
